@@ -334,6 +334,24 @@ func groupScalars() {
 	}
 }
 
+// a struct whose only declared defaults compare equal to zero (-0.0, empty non-nil binary): its
+// initialiser still has to run for nested instances
+func groupZeroishDefaults() {
+	z := newStruct("defaults")
+	z.HasInit = true
+	f := z.add("D", prim("float64"), 1, "optional")
+	f.Dflt, f.DfltVal = "math.Copysign(0, -1)", u(0x8000000000000000)
+	f = z.add("B", binary(), 2, "optional")
+	f.Dflt, f.DfltVal, _ = dfltFor(f.Ty, true)
+	z.add("N", prim("int32"), 3, "default")
+	o := newStruct("defaults")
+	o.add("P", ptr(sref(z)), 1, "optional")
+	o.add("V", sref(z), 2, "default")
+	o.add("L", list(ptr(sref(z))), 3, "default")
+	o.add("M", mapOf(prim("int32"), sref(z)), 4, "default")
+	o.add("LV", list(sref(z)), 5, "default")
+}
+
 func elemForms() []*Ty {
 	return []*Ty{prim("bool"), prim("int8"), prim("int16"), prim("int32"), prim("int64"), prim("float64"),
 		enumTy, prim("string"), binary(), ptr(sref(leaf)), sref(leaf),
@@ -791,6 +809,21 @@ func groupSpellings() {
 	s.addRaw("J", prim("int64"), `frugal:"10,default,i6"`, 10, true) // substring match quirk
 	s.addRaw("K", list(prim("int32")), `frugal:"11,default,list<i32>>trailing"`, 11, true)
 	s.addRaw("L", prim("int"), `frugal:"12,default,int"`, 12, true) // `int` named by its own name: enum
+	// a named type of kind `int` under its own name (enum), in containers, and as plain i64
+	c1 := named("int", "C1")
+	ci := newStruct("spellings")
+	ci.addRaw("M", c1, `frugal:"1,default,C1"`, 1, true)
+	ci.addRaw("N", list(c1), `frugal:"2,default,list<C1>"`, 2, true)
+	ci.addRaw("O", mapOf(c1, prim("string")), `frugal:"3,default,map<C1:string>"`, 3, true)
+	ci.addRaw("P", c1, `frugal:"4,default,i64"`, 4, true)
+	ci.addRaw("Q", ptr(c1), `frugal:"5,optional,universe.C1"`, 5, true)
+	// spellings of the field id: resolve-only (whether each is accepted is the model's to say)
+	for _, id := range []string{"010", "08", "0x10", "0b1", "0o7", "1_0", "+5", "00", "000065535", "0065536", "١"} {
+		x := newStruct("spellings")
+		x.Accept = false
+		x.addRaw("A", prim("int32"), `frugal:"`+id+`,default,i32"`, -1, true)
+		x.addRaw("B", prim("int32"), `frugal:"8,default,i32"`, 8, true)
+	}
 	// same named int64 type used as enum and as plain i64, in both first-use orders
 	e2, e3 := named("int64", "E2"), named("int64", "E3")
 	a := newStruct("spellings")
@@ -1206,7 +1239,7 @@ func emit(outDir string) {
 	var g strings.Builder
 	g.WriteString("// Code generated by gentypes. DO NOT EDIT.\n\npackage universe\n\nimport (\n\t\"math\"\n\t\"reflect\"\n\t\"unsafe\"\n)\n\n")
 	g.WriteString("var _ = math.Pi\nvar _ unsafe.Pointer\n\n")
-	g.WriteString("type E1 int64\ntype E2 int64\ntype E3 int64\ntype NB uint8\n\n")
+	g.WriteString("type E1 int64\ntype E2 int64\ntype E3 int64\ntype NB uint8\ntype C1 int\n\n")
 	var u strings.Builder
 	for _, s := range structs {
 		fmt.Fprintf(&g, "type %s struct {\n", s.Name)
@@ -1300,6 +1333,7 @@ func main() {
 	rng = rand.New(rand.NewSource(*seed))
 	groupLeaves()
 	groupScalars()
+	groupZeroishDefaults()
 	groupLists()
 	groupMaps()
 	groupRecursive()
